@@ -66,6 +66,9 @@ Case (driver "via"):
                              arrives; until then only further v_connect steps happen (anything else lets it arrive)
      ["v_drop", k]           if k%4 == 0: connection k//4's SOCKS connection is reset before tor has read a request
                              (no stream ever)
+  u_new, (c//8)%8 in 2..6 (modern tor): the unrelated client's SOCKS user name / password (printed as QuotedStrings)
+  contains keyword-like text: ' SOURCE_ADDR=<local host:port of via connection a> ' (middle / first / last) or other
+  keywords; the stream is judged by its real source address
   u_new variant b%7 == 6: the unrelated connection re-uses the local host:port of a via connection whose SOCKS
   connection is closed by now (it failed because its circuit closed first, was reset, or succeeded and ended)
 """
@@ -159,7 +162,9 @@ ASSUMPTIONS = [
     "sequence at the end (install -> 1, removal -> 0, nothing else)",
     "a 'different' attacher is a different object: two attacher instances that compare equal (__eq__) are still "
     "two attachers, the second is refused; STREAM events of a modern tor may carry SOCKS_USERNAME / "
-    "SOCKS_PASSWORD QuotedStrings, with blanks and escaped quotes (no '=' inside)",
+    "SOCKS_PASSWORD QuotedStrings, with blanks and escaped quotes; in the via driver the quoted values of "
+    "unrelated streams may contain keyword-like text ('SOURCE_ADDR=<local address of a via connection>', "
+    "'PURPOSE=DIR_FETCH'): a QuotedString is one value, the stream is judged by its real SOURCE_ADDR",
     "only None removes the attacher: an attacher object that happens to be falsy (defines __len__/__bool__) "
     "is installed like any other ('while a stream attacher is installed' - truthiness is not part of it); an "
     "empty PriorityAttacher has no preference (ATTACHSTREAM id 0) and asks sub-attachers added later",
@@ -329,6 +334,7 @@ class SRec(object):
         self.unjudged = False           # announced while it was uncertain whether an attacher is installed
         self.after_removal = False      # the answer was processed after the asked attacher had been removed
         self.inside = None              # what the attacher did to the slot from inside attach_stream
+        self.spoof = None               # via: its quoted SOCKS user name / password contains keyword-like text
         self.reuses = None              # via: Conn whose (closed) local address this unrelated stream re-uses
 
     def __repr__(self):
@@ -761,6 +767,10 @@ class Run(object):
             res.bad("no-decision/host-merely-contains-.exit", text)
         elif rec.own_of is not None:
             res.bad("via/own-stream-" + ("not-attached" if not got else "sent-elsewhere"), text)
+        elif rec.installed == "internal" and rec.spoof:
+            res.bad("via/unrelated-stream-" + ("captured" if got and got[0] != 0 else "not-left-to-tor") +
+                    "/keyword-like-text-in-quoted-value", text + " - judged by its real SOURCE_ADDR %s; its quoted "
+                    "SOCKS user name / password is %r" % (rec.m.src, rec.m.socks_auth))
         elif rec.installed == "internal" and rec.reuses is not None:
             res.bad("via/stale-entry-catches-reused-source-address", text + " - the stream re-uses the local "
                     "address of via connection %d, whose SOCKS connection is closed" % rec.reuses.k)
@@ -1702,11 +1712,30 @@ class ViaRun(Run):
             target = "%s:0" % host
         elif c % 8 == 6:
             target = EXIT_TARGETS[(c // 8) % len(EXIT_TARGETS)]
-        rp = self.world.new_stream(kind, target, "%s:%d" % src, "USER")
+        # SOCKS user name / password of the unrelated client (tor prints them as QuotedStrings): text that looks
+        # like a keyword - in particular the SOURCE_ADDR of a via connection of this case - is just text
+        auth = None
+        spoof = None
+        sel = (c // 8) % 8
+        if self.conns and sel in (2, 3, 4, 5):
+            victim = self.conns[a % len(self.conns)]
+            fake = "SOURCE_ADDR=%s:%d" % victim.sock.local
+            auth = [('"x %s y"' % fake, None), ('"%s y"' % fake, '"pw"'), ('"u"', '"z %s"' % fake),
+                    ('"%s"' % fake, '"x %s y"' % fake)][sel - 2]
+            spoof = "SOURCE_ADDR-of-via-connection"
+        elif sel == 6:
+            auth = ('"a PURPOSE=DIR_FETCH b"', '"c SOURCE=EXIT REASON=DONE d"')
+            spoof = "other-keywords"
+        if not self.world.modern:
+            auth = spoof = None                 # an old tor does not print the SOCKS authentication
+        rp = self.world.new_stream(kind, target, "%s:%d" % src, "USER", socks_auth=auth)
         if rp is None:
             return
         rec = self.rec_of(rp.obj)
         rec.reuses = reuses
+        rec.spoof = spoof
+        if spoof and self.installed == "internal":
+            self.res.label("unrelated:quoted-value-contains-" + spoof)
         self.expect_internal(rec)
         if self.installed == "internal":
             self.unrelated += 1
@@ -1970,6 +1999,8 @@ MUTANTS = [
      "    return dict(x.split('=', 1) for x in filtered)",
      "    kw = dict(x.split('=', 1) for x in filtered)\n    for k, v in kw.items():\n"
      "        if v.startswith('\"'):\n            kw[k] = unescape_quoted_string(v)\n    return kw"),
+    ("stream-event-split-ignores-quotes", "txtorcon/torstate.py",     # needs fixes/C09-quoted-keyword-value-split.diff
+     "        args = _split_event_args(line)\n", "        args = line.split()\n"),
     ("attachstream-names-the-wrong-stream", "txtorcon/torstate.py",
      '                    u"ATTACHSTREAM {} {}".format(stream.id, circ.id).encode("ascii")',
      '                    u"ATTACHSTREAM {} {}".format(circ.id, stream.id).encode("ascii")'),
